@@ -420,8 +420,7 @@ def generate(rng, tier):
             continue
         for a in pre:
             yield {"op": f"proc seq {a},write:t {p}"}
-            if tier != "quick" or a.startswith("check"):
-                yield {"op": f"proc seqs {a},write:t {p}"}
+            yield {"op": f"proc seqs {a},write:t {p}"}
     for p in pops(KINDS, 2):
         if p == "-":
             continue
